@@ -394,7 +394,10 @@ CfdpExp(op, a) ==
               IN WithSfx(full, a.sfx, DocFams)
     [] op = "pdu.unpack" ->
          LET d == PduDec(a.octets, a.want) IN
-         IF d.ok THEN [pdu |-> d.v, plen |-> d.n] ELSE ExpRej(d.rej)
+         IF ~d.ok THEN ExpRej(d.rej)
+         \* a complete PDU followed by further octets: decoded as the PDU alone, or refused (C09)
+         ELSE IF d.n < Len(a.octets) THEN [anyof |-> <<[pdu |-> d.v, plen |-> d.n], ExpRej(DocFams)>>]
+         ELSE [pdu |-> d.v, plen |-> d.n]
     [] op = "holder.matrix" ->
          [row |-> [i \in 1..8 |-> IF KindOrder[i] = a.kind THEN "ok" ELSE "type"]]
     [] op = "fd.maxseg" ->
